@@ -442,11 +442,17 @@ func CDSRegion2fromGFF(fs []gff.Feature, refSeqDegapped string) (Region, error) 
 	pos := make([]int, 0)
 	switch fs[0].Strand {
 	case "+":
-		for _, f := range fs {
+		for j, f := range fs {
 			if f.Strand != "+" {
 				return r, errors.New("Error parsing gff: mixed strands within a single ID")
 			}
-			for i := f.Start + f.Phase; i <= f.End; i++ {
+			// the phase of the 5'-most row says where the first codon starts; the phase of a continuation
+			// row only describes the codon that spans the junction, none of whose bases may be skipped
+			start := f.Start
+			if j == 0 {
+				start += f.Phase
+			}
+			for i := start; i <= f.End; i++ {
 				pos = append(pos, i)
 			}
 		}
@@ -469,7 +475,12 @@ func CDSRegion2fromGFF(fs []gff.Feature, refSeqDegapped string) (Region, error) 
 			if f.Strand != "-" {
 				return r, errors.New("Error parsing gff: mixed strands within a single ID")
 			}
-			for i := f.End - f.Phase; i >= f.Start; i-- {
+			// (see above: only the 5'-most row, which is the last one on the minus strand, loses its phase bases)
+			end := f.End
+			if j == len(fs)-1 {
+				end -= f.Phase
+			}
+			for i := end; i >= f.Start; i-- {
 				pos = append(pos, i)
 			}
 		}
